@@ -5,11 +5,13 @@ import (
 	"errors"
 	"fmt"
 	"strings"
+	"unicode"
 	"unicode/utf8"
 
 	"github.com/M2MGateway/go-smpp/coding"
 	"github.com/M2MGateway/go-smpp/coding/gsm7bit"
 	"golang.org/x/text/transform"
+	"golang.org/x/text/unicode/norm"
 )
 
 func init() { corrTable["C08"] = corrC08 }
@@ -366,7 +368,7 @@ func corrC08(r *Run) {
 	r.Import("Model.Gsm7")
 	r.Rule = "alphabet: all 1,112,064 scalar values one at a time and all 128+128 septets / ESC+septets (exhaustive); " +
 		"texts: all strings of length <= 3 over a 12-symbol alphabet (exhaustive), every n mod 8 x every pair of final symbols x prefix lengths " +
-		"(exhaustive), random texts over the 137 characters and with foreign characters; encoder and decoder Transform at destination " +
+		"(exhaustive), random texts over the 137 characters and with foreign characters; every repertoire character + combining mark U+0300..U+036F, the composing pairs inside words, every character NFKC / mark stripping / case mapping would rewrite into the repertoire (context-dependent substitution); encoder and decoder Transform at destination " +
 		"capacities need-1, need (exact fit), need+1, len(src); arbitrary octets for the decoder. " +
 		"non-trivial = distinct non-empty accepted texts / distinct non-empty octet strings / distinct (text, capacity) pairs"
 	c := &c08{r: r, seen: map[string]bool{}}
@@ -511,6 +513,104 @@ func corrC08(r *Run) {
 				c.text(t, "8k-1 / 8k / 8k+1 septets ending in CR", 2)
 			}
 		}
+	}
+
+	// ---- 4c. multi-character sequences a normaliser / case folder / transliterator would rewrite INTO the
+	//      repertoire.  Every one contains a character outside GSM 03.38, so the encoder must refuse it and the
+	//      detector must say no - also when each character on its own behaves (the per-scalar sweep cannot see
+	//      context-dependent substitution).
+	inRep := func(s string) bool {
+		if s == "" {
+			return false
+		}
+		for _, x := range s {
+			if _, ok := stdSeptets[x]; !ok {
+				return false
+			}
+		}
+		return true
+	}
+	stripMarks := func(s string) string {
+		var b strings.Builder
+		for _, x := range norm.NFD.String(s) {
+			if !unicode.Is(unicode.Mn, x) {
+				b.WriteRune(x)
+			}
+		}
+		return b.String()
+	}
+	// (a) repertoire character + combining mark, all 137 x 112 pairs (direct tests); the pairs that compose
+	//     (NFC/NFKC) to a repertoire character also as model cases and inside words at every residue
+	var composing [][]rune
+	for _, base := range stdRepertoire {
+		for mark := rune(0x300); mark <= 0x36F; mark++ {
+			pair := []rune{base, mark}
+			lvl := 0
+			if nf := norm.NFC.String(string(pair)); nf != string(pair) && inRep(nf) {
+				lvl = 1
+				composing = append(composing, pair)
+			} else if mark%16 == rune(r.Seed%16) && base < 0x80 {
+				lvl = 1
+			}
+			c.text(pair, "repertoire character + combining mark", lvl)
+		}
+	}
+	r.Hist["composing pairs (NFC lands in the repertoire)"] = len(composing)
+	words := []string{"man", "ana", "caf", "", "Zo", "na", "ve", "12345", "abcdefg", "[x]"}
+	for i, pair := range composing {
+		for p := 0; p <= r.N(8, 16); p++ {
+			if r.Quick && (p+i)%3 != 0 {
+				continue
+			}
+			t := append([]rune(filler[:p]), pair...)
+			t = append(t, []rune(words[(i+p)%len(words)])...)
+			c.text(t, "composing pair inside a word", 1)
+		}
+		// two pairs, a pair after CR, a pair as the very last character of 8k septets
+		t := append(append([]rune("a"), pair...), composing[(i*7+3)%len(composing)]...)
+		c.text(t, "composing pair inside a word", 1)
+		c.text(append([]rune("abcdef\r"), pair...), "composing pair inside a word", 1)
+	}
+	// (b) single characters outside the repertoire that NFKC, mark stripping or case mapping would turn into
+	//     repertoire text (full-width forms, ligatures, NBSP and the other spaces, Kelvin / Angstrom / Ohm signs,
+	//     accented Latin letters, lower-case Greek, ...), each inside a word and next to a composing pair
+	nRew := 0
+	for x := rune(0x80); x < 0x30000; x++ {
+		if x >= 0xD800 && x <= 0xDFFF {
+			continue
+		}
+		if _, ok := stdSeptets[x]; ok || isD16(x) {
+			continue
+		}
+		sx := string(x)
+		var to string
+		for _, cand := range []string{norm.NFKC.String(sx), norm.NFC.String(sx), stripMarks(sx), string(unicode.ToUpper(x)), string(unicode.ToLower(x)), stripMarks(string(unicode.ToUpper(x)))} {
+			if cand != sx && inRep(cand) {
+				to = cand
+				break
+			}
+		}
+		if to == "" {
+			continue
+		}
+		nRew++
+		lvl := 0
+		if !r.Quick || nRew%16 == int(r.Seed%16) || x == 0xA0 || x == 0x212A || x == 0x212B || x == 0x2126 || x == 0xFB01 || x == 0xFF21 || x == 0x3B1 {
+			lvl = 1
+		}
+		c.text([]rune("ab"+sx+"cd"), "character a normaliser / case mapping / transliteration would rewrite, inside a word", lvl)
+		if lvl > 0 || nRew%4 == 0 {
+			pair := composing[nRew%len(composing)]
+			c.text(append(append([]rune{}, pair...), x), "rewritable character next to a composing pair", lvl)
+			c.text([]rune{x, pair[1]}, "rewritable character + combining mark", lvl)
+		}
+	}
+	r.Hist["rewritable single characters found"] = nRew
+	// (c) a few hand-picked sequences
+	for _, s2 := range []string{"e\u0301", "a\u0300", "u\u0308", "n\u0303", "A\u030A", "C\u0327", "man\u0303ana", "cafe\u0301", "Zoe\u0308",
+		"e\u0301e\u0301e\u0301e\u0301", "\u212Be\u0301", "\u2126 e\u0301", "a\u00A0b", "a\u202Fb", "a\u2009b", "\uFF21\uFF22\uFF23", "\uFB01n", "stra\u00DFe\u0301",
+		"o\u0308\u0301", "e\u0301\u0301", "\u0301e", "e\u200D\u0301", "i\u0307", "\u0130", "\u0131", "\u017F", "\u03C9\u0301", "\u1E9E", "e\u0341", "\u0041\u0308\u0041\u030A"} {
+		c.text([]rune(s2), "hand-picked rewritable sequences", 2)
 	}
 
 	// ---- 5. random texts over the 137 characters (CR / ESC / '@' heavy at the end), some with a foreign character
